@@ -512,6 +512,8 @@ pub fn run_c17(ctx: &mut Ctx, rng: &mut Rng, _t: bool) {
             roundtrip(ctx, "FricBrake", "default", &SpeedLimitTrainSim::default().fric_brake);
             roundtrip(ctx, "Location", "generated", &gt::location("A", 3));
             roundtrip(ctx, "TimedLinkPath", "generated", &TimedLinkPath(vec![LinkIdxTime::new(altrios_core::track::LinkIdx::new(1), uc::S * 0.0), LinkIdxTime::new(altrios_core::track::LinkIdx::new(2), uc::S * 12.5)]));
+            // boundary values of index types
+            roundtrip(ctx, "TimedLinkPath", "boundary indices 0 and u32::MAX, time 0 and large", &TimedLinkPath(vec![LinkIdxTime::new(altrios_core::track::LinkIdx::new(0), uc::S * 0.0), LinkIdxTime::new(altrios_core::track::LinkIdx::new(u32::MAX), uc::S * 1.0e9), LinkIdxTime::new(altrios_core::track::LinkIdx::new(u32::MAX - 1), uc::S * 86400.0)]));
             roundtrip(ctx, "TrainParams", "valid()", &{
                 use altrios_core::validate::Valid;
                 TrainParams::valid()
